@@ -36,13 +36,34 @@ func wgModels(ctx *core.Ctx, f func(i int, tm gen.Tagged) bool) {
 	}
 	extra = append(extra, gen.SweepModelsGraph(gsizes)...)
 	nSpecial := len(extra)
+	// the cycle-rich families again under names a string operation could trip over (round 10): a thinned selection under the
+	// ordinary budgets (they are copies of models the special budgets have seen under their plain names)
+	{
+		var pick []gen.Tagged
+		for i, tm := range gen.InterlockModels() {
+			if i%4 == 1 || ctx.Thorough() {
+				pick = append(pick, tm)
+			}
+		}
+		for i, tm := range gen.SecondRouteModels() {
+			if i%32 == 5 || (ctx.Thorough() && i%4 == 1) {
+				pick = append(pick, tm)
+			}
+		}
+		for i, tm := range gen.SameTargetModels() {
+			if i%8 == 3 || ctx.Thorough() {
+				pick = append(pick, tm)
+			}
+		}
+		extra = append(extra, gen.Renamed(pick)...)
+	}
 	extra = append(extra, gen.ThreeRelModels(ctx.Thorough())...)
 	extra = append(extra, gen.NestedModels()...)
 	for j, tm := range extra {
 		if !ctx.Mine(j) {
 			continue
 		}
-		if !ctx.Thorough() && j >= nSpecial && j%4 != 0 {
+		if !ctx.Thorough() && j >= nSpecial && j%4 != 0 && !strings.HasPrefix(tm.Tag, "renamed(") {
 			continue // quick: every 4th of the three-relation and nested families
 		}
 		if ctx.Expired() {
